@@ -665,5 +665,5 @@ func E12ColorSpaceOnce(c *core.Ctx, r *core.Report) {
 		})
 	}
 	r.Count("E12.colorspace-conversions", n)
-	r.Floor("E12.colorspace-conversions", 6)
+	r.Floor("E12.colorspace-conversions", 4)
 }
